@@ -63,7 +63,16 @@ def model_for(ex, ob, timeout_ms):
         for p in ob.pc:
             s.add(p)
         s.add(z3.Not(ob.goal))
-        if bound is not None:
+        if bound == 'mem':
+            # the smallest total size that can still be replayed: at most
+            # 2^30 + 8 elements per matrix, 3 * 2^30 in total
+            tot = z3.IntVal(0)
+            for o in ex.objs.values():
+                if hasattr(o, 'nrows'):
+                    s.add(o.nrows * o.ncols <= 2**30 + 8)
+                    tot = tot + o.nrows * o.ncols
+            s.add(tot <= 3 * 2**30)
+        elif bound is not None:
             for o in ex.objs.values():
                 if hasattr(o, 'nrows'):
                     s.add(o.nrows <= bound, o.ncols <= bound)
@@ -71,7 +80,7 @@ def model_for(ex, ob, timeout_ms):
             return None
         return s.model()
     m = None
-    for b in (6, 64, None):
+    for b in (6, 64, 'mem', None):
         m = attempt(b)
         if m is not None:
             break
